@@ -1315,3 +1315,39 @@ def c04_programs(tier, sd):
     out.append({"tag": "unique_vec", "desc": "unique_vec over three 2-element lists", "prog": one_class(uv, [["unique_vec", [["p"], ["q"], ["r"]]]]),
                 "world": [["top", "obj", "Top"]], "ops": [["randomize", ["top"]], ["randomize", ["top"]]]})
     return out
+
+
+# ------------------------------------------------------------------------------------------ C15 dist support
+def c15_programs(tier, sd):
+    rnd = random.Random(sd)
+    out = []
+    a, b, n = F("a"), F("b"), F("n")
+    fields = [fld("a", ("u", 8)), fld("b", ("u", 8)), fld("c", ("s", 8)), fld("n", ("u", 8), False), fld("m", ("u", 8), False)]
+    dists = [
+        [[lit(1), 10], [lit(2), 20], [lit(4), 40], [lit(8), 80]],
+        [[lit(1), 1], [lit(2), 0], [lit(4), 3], [lit(8), 0]],
+        [[["rng", lit(1), lit(4)], 1], [["rng", lit(10), lit(20)], 0], [lit(100), 5]],
+        [[["rng", lit(0), lit(9)], 2], [["rng", lit(5), lit(15)], 0]],                       # zero-weight range overlapping a weighted one
+        [[lit(1), n], [lit(2), F("m")], [["rng", lit(30), lit(40)], 1]],                     # weights given by non-random fields
+        [[lit(0), 1], [lit(255), 1]],
+        [[["rng", lit(250), lit(255)], 3], [lit(3), 1], [lit(3), 0]],                         # the same value listed with weight 0 as well
+    ]
+    others = [[], [E(["<", a, b])], [E([">", a, lit(3)])], [E(["!=", a, lit(1)]), E(["!=", a, lit(100)])],
+              [["if", [[["<", b, lit(128)], [E(["<", a, lit(50)])]]], [E([">=", a, lit(2)])]]], [E(["==", ["+", a, b], ["ulit", 12, 8]])]]
+    for d in dists:
+        for o in others:
+            pr = one_class(fields, [["dist", a, d]] + o)
+            ops = []
+            for nv, mv in ((1, 1), (0, 5), (7, 0)):
+                ops += [["set", ["top", "n"], nv], ["set", ["top", "m"], mv], ["randomize", ["top"]], ["randomize_with", ["top"], [E(["<", b, lit(200)])]]]
+            out.append({"tag": "dist", "desc": "dist %s with %s" % (d, o), "prog": pr, "world": [["top", "obj", "Top"]], "ops": ops})
+    # dist on a signed field, inline dist, dist under a condition, dist over list elements
+    pr = one_class(fields, [["dist", F("c"), [[lit(-5), 1], [["rng", lit(-128), lit(-120)], 2], [lit(7), 0]]]])
+    out.append({"tag": "dist", "desc": "dist on signed field", "prog": pr, "world": [["top", "obj", "Top"]], "ops": [["randomize", ["top"]], ["randomize", ["top"]]]})
+    pr = one_class(fields, [E(["<", a, lit(200)])])
+    out.append({"tag": "dist_inline", "desc": "inline dist", "prog": pr, "world": [["top", "obj", "Top"]],
+                "ops": [["randomize_with", ["top"], [["dist", a, dists[1]]]], ["randomize", ["top"]], ["randomize_with", ["top"], [["dist", a, dists[2]], E([">", a, lit(2)])]]]})
+    lf = [["l", "list", ["u", 8], 3, True, False]]
+    pr = one_class(lf, [["foreach", ["l"], "i", [["dist", ["it", "i"], [[lit(1), 1], [lit(5), 0], [["rng", lit(10), lit(12)], 2]]]]]])
+    out.append({"tag": "dist_list", "desc": "dist on list elements", "prog": pr, "world": [["top", "obj", "Top"]], "ops": [["randomize", ["top"]], ["randomize", ["top"]]]})
+    return out
